@@ -195,7 +195,31 @@ func checkSyntaxInfixParts(node *InfixExpression) Object {
 		return newError(syntaxErrorTemplate, expr.String())
 	}
 
+	if !operatorIsKeyword && !(isComparisonOperand(node.Left) && isComparisonOperand(node.Right)) {
+		return newError("syntax error; %s compares attribute paths, values and size(), not conditions: %s", node.Operator, node.String())
+	}
+
 	return nil
+}
+
+// isOperand tells whether the expression is an attribute path, a value or a function call, and not a condition
+func isOperand(expr Expression) bool {
+	switch expr.(type) {
+	case *Identifier, *IndexExpression, *CallExpression:
+		return true
+	}
+
+	return false
+}
+
+func isComparisonOperand(expr Expression) bool {
+	if call, ok := expr.(*CallExpression); ok {
+		fn, ok := call.Function.(*Identifier)
+
+		return ok && fn.Value == "size"
+	}
+
+	return isOperand(expr)
 }
 
 func evalInfixExpression(operator string, left, right Object) Object {
@@ -714,6 +738,12 @@ func evalFunctionCall(node *CallExpression, env *Environment) Object {
 
 	if funcObj.ForUpdate {
 		return newError("the function is not allowed in an condition expression; function: " + funcObj.Name)
+	}
+
+	for _, arg := range node.Arguments {
+		if !isOperand(arg) {
+			return newError("syntax error; %s takes attribute paths and values, not conditions: %s", funcObj.Name, node.String())
+		}
 	}
 
 	args := evalExpressions(node.Arguments, env)
